@@ -499,6 +499,56 @@ example : accepts O0 (.union [.enum 0 ["red"], .none]) (.str "null") = true ∧
     accepts O0 (.union [.enum 0 ["red"], .none]) (.str "blue") = false := by
   refine ⟨rfl, rfl, rfl⟩
 
+/-! ### the two known deviations of soundness, characterised exactly -/
+
+/-- **dictionary keys (finding C02-dict-key-unchecked)**: `Dict[str, V]` hands the keys of the given dictionary
+    through untouched … -/
+theorem C02_dict_keys_verbatim (O : Oracle) (orig : Option String) (t : Ty) (kvs ys : List (DKey × Val))
+    (h : adapt O false orig (.dict .str t) (.dict kvs) = .ok (.dict ys)) : ys.map Prod.fst = kvs.map Prod.fst :=
+  dictStr_keys O orig t kvs ys h
+
+/-- … so its result conforms strictly EXACTLY when every key of the given dictionary is a string (the values
+    conform under the hypotheses of `C02_sound_partial`).  `Dict[int, V]` casts its keys and is sound
+    (`C02_sound_literals` with `castKeys`): a non-string key under `Dict[str, _]` is the only way a key can be wrong -/
+theorem C02_dict_key_exact (O : Oracle) (orig : Option String) (t : Ty) (kvs : List (DKey × Val)) (w : Val)
+    (hl : litStrOnly t = true) (hv : ∀ kv ∈ kvs, strKeys kv.2 = true)
+    (h : adapt O false orig (.dict .str t) (.dict kvs) = .ok w) :
+    Conforms O.rnumOk (.dict .str t) w ↔ ∀ kv ∈ kvs, kv.1.isStr = true :=
+  dictStr_conf_iff O orig t kvs w hl hv h
+
+example : adapt O0 false .none (.dict .str .int) (.dict [(.str "a", .str "1"), (.int 1, .int 2)])
+      = .ok (.dict [(.str "a", .int 1), (.int 1, .int 2)]) := by rfl
+
+/-- **Literal (finding C02-literal-pyeq)**: what a `Literal` accepts either IS one of its members, or is `==` to a
+    member of another kind (`Lit.confused`) … -/
+theorem C02_literal_exact (O : Oracle) (orig : Option String) (ls : List Lit) (v w : Val)
+    (h : adapt O false orig (.literal ls) v = .ok w) :
+    Conforms O.rnumOk (.literal ls) w ∨ ∃ l ∈ ls, l.confused w = true :=
+  literal_result O orig ls v w h
+
+/-- … which happens exactly between bool / int / float denoting the same number (`True` / `1.0` for `Literal[1]`,
+    `1` / `0.0` for `Literal[True]` / `Literal[False]`), never for a string member … -/
+theorem C02_literal_confusion_kinds (l : Lit) (w : Val) :
+    l.confused w = true ↔
+      (match l, w with
+       | .int i, .bool b => i = (if b then 1 else 0)
+       | .int i, .flt r => fltAsInt r = some i
+       | .bool b, .int i => (if b then 1 else 0) = i
+       | .bool b, .flt r => fltAsInt r = some (if b then 1 else 0)
+       | _, _ => False) :=
+  Lit.confused_iff l w
+
+/-- … and every such value IS accepted and returned unchanged (from a config file; argv text is converted by the
+    member kinds first) -/
+theorem C02_literal_confused_accepted (O : Oracle) (orig : Option String) (ls : List Lit) (l : Lit) (w : Val)
+    (hl : l ∈ ls) (hc : l.confused w = true) : adapt O false orig (.literal ls) w = .ok w :=
+  literal_confused_accepted O orig ls l w hl hc
+
+example : (Lit.int 1).confused (.bool true) = true ∧ (Lit.int 1).confused (.flt "1.0") = true ∧
+    (Lit.bool false).confused (.int 0) = true ∧ (Lit.int 1).confused (.int 1) = false ∧
+    (Lit.str "1").confused (.int 1) = false := by
+  refine ⟨rfl, rfl, rfl, rfl, rfl⟩
+
 /-! ### arguments that have a default
 
 `adapt_typehints` returns early when `type(val) in {str, bool, int, float} and val == default` (Python `==`, so
